@@ -1,21 +1,21 @@
-//! Ad-hoc: reference cell of one generator, faces and vertices.
+//! Ad-hoc: cell infos (conditioning, tolerances) of a case.
 use mvv::case::Case;
-use mvv::refmodel::{ref_cell, sites_rel, RefOpts};
+use mvv::cellinfo::cell_infos;
+use mvv::obs;
 fn main() {
     let args: Vec<String> = std::env::args().collect();
     let c = Case::load(&args[1]).unwrap();
-    let i: usize = args[2].parse().unwrap();
-    let r = ref_cell(&c, i, &RefOpts::default());
-    println!("V {:e} cuts {} nverts {}", r.volume, r.cuts, r.vertices.len());
-    for f in &r.faces {
-        println!("  face {:?} area {:e} centroid-g {:?}", f.tag, f.area, f.centroid - r.gen);
-    }
-    for v in &r.vertices {
-        println!("  v-g {:?}", *v - r.gen);
-    }
-    let mut s = sites_rel(&c, i, 2);
-    s.sort_by(|a, b| a.2.length().partial_cmp(&b.2.length()).unwrap());
-    for x in s.iter().take(12) {
-        println!("  site {} {:?} rel {:?} |{:e}|", x.0, x.1, x.2, x.2.length());
+    let vi = obs::integrator(&c, None);
+    for (i, info) in cell_infos(&c, &vi).iter().enumerate() {
+        let cell = vi.get_cell_at(i).unwrap();
+        println!("cell {i}: {:?} nverts {} nplanes {}", info, cell.vertices.len(), cell.clipping_planes.len());
+        if args.len() > 2 && args[2].parse::<usize>().ok() == Some(i) {
+            for (k, v) in cell.vertices.iter().enumerate() {
+                println!("   v{k} dual {:?} loc {:?} kappa {:e}", v.dual, v.loc, obs::vertex_kappa(cell)[k]);
+            }
+            for (k, p) in cell.clipping_planes.iter().enumerate() {
+                println!("   plane {k}: right {:?} shift {:?} n {:?}", p.right_idx, p.shift, p.plane.n);
+            }
+        }
     }
 }
